@@ -7,9 +7,17 @@ package c05
 // handler answers at once — every injected copy is answered by exactly one datagram, which is waited for.
 //
 //	own <getmid> udpsrv | recv con <mid> <tokhex> <pb|pbe|none|empty> | newconn | tick
+//	  | mrecv non <mid> <tokhex> <pb|pbe> | other <lo|if>
+//
+// mrecv: a MULTICAST copy of a non-confirmable request (the server has joined group 224.0.1.187 on the first multicast
+// capable non-loopback interface; sent from a second socket of the peer through that interface with multicast loopback);
+// other: some other peer exchanges one unicast request with the server through 127.0.0.1 (lo) or through the address of
+// the multicast interface (if) - not part of the observed history.  Without such an interface a line with mrecv yields
+// `no-multicast-interface`.
 
 import (
 	"bufio"
+	"context"
 	"fmt"
 	"net"
 	"strconv"
@@ -23,6 +31,7 @@ import (
 	"github.com/plgd-dev/go-coap/v3/options"
 	"github.com/plgd-dev/go-coap/v3/udp"
 	udpclient "github.com/plgd-dev/go-coap/v3/udp/client"
+	udpserver "github.com/plgd-dev/go-coap/v3/udp/server"
 	"verifharness/internal/lp"
 )
 
@@ -37,6 +46,19 @@ func runUDPServerScenario(line string) string {
 		return "listen-error " + err.Error()
 	}
 	defer func() { _ = l.Close() }()
+	getmid, _ := strconv.ParseInt(first[1], 10, 64)
+	iface, ifaceIP, haveMC := multicastInterface()
+	needMC := strings.Contains(line, "mrecv")
+	if needMC && !haveMC {
+		return "no-multicast-interface"
+	}
+	lport := l.LocalAddr().(*net.UDPAddr).Port
+	group := &net.UDPAddr{IP: net.IPv4(224, 0, 1, 187), Port: lport}
+	if needMC {
+		if errJ := l.JoinGroup(&iface, group); errJ != nil {
+			return "no-multicast-interface " + errJ.Error()
+		}
+	}
 	sc := &scenario{autoAck: true}
 	var tickMu sync.Mutex
 	var tickFn func(now time.Time) bool
@@ -44,6 +66,7 @@ func runUDPServerScenario(line string) string {
 		options.WithErrors(func(error) {}),
 		options.WithMessagePool(pool.New(64, 2048)),
 		options.WithHandlerFunc(sc.handler),
+		udpGetMIDOpt{func() int32 { return int32(getmid) }},
 		options.WithInactivityMonitor(100000*time.Hour, func(*udpclient.Conn) {}),
 		options.WithPeriodicRunner(func(f func(now time.Time) bool) { tickMu.Lock(); tickFn = f; tickMu.Unlock() }),
 	)
@@ -57,6 +80,16 @@ func runUDPServerScenario(line string) string {
 		return "dial-error " + err.Error()
 	}
 	defer func() { _ = peer.Close() }()
+	var mp *coapNet.UDPConn // second socket of the peer: source of the multicast copies
+	if needMC {
+		if mp, err = coapNet.NewListenUDP("udp4", ""); err != nil {
+			return "peer-error " + err.Error()
+		}
+		defer func() { _ = mp.Close() }()
+		if errL := mp.SetMulticastLoopback(true); errL != nil {
+			return "no-multicast-interface " + errL.Error()
+		}
+	}
 	var got [][]byte
 	sc.lk = link{
 		takeSent: func() [][]byte { o := got; got = nil; return o },
@@ -88,6 +121,51 @@ func runUDPServerScenario(line string) string {
 				continue
 			}
 			got = append(got, append([]byte(nil), buf[:n]...))
+		case "mrecv":
+			if f[1] != "non" || mp == nil {
+				segs = append(segs, "bad-op")
+				continue
+			}
+			mid, _ := strconv.ParseInt(f[2], 10, 32)
+			tok, _ := lp.ParseHex(f[3])
+			ctx, cancel := context.WithTimeout(context.Background(), 3*time.Second)
+			errW := mp.WriteMulticast(ctx, group, buildReq(parseType("non"), int32(mid), tok, f[4]), coapNet.WithMulticastInterface(iface))
+			if errW != nil {
+				cancel()
+				segs = append(segs, "write-error")
+				continue
+			}
+			buf := make([]byte, 2048)
+			n, _, errR := mp.ReadWithContext(ctx, buf)
+			cancel()
+			if errR != nil {
+				segs = append(segs, "no-reply")
+				continue
+			}
+			got = append(got, append([]byte(nil), buf[:n]...))
+		case "other":
+			ip := net.IPv4(127, 0, 0, 1)
+			if f[1] == "if" {
+				if !haveMC {
+					segs = append(segs, "no-multicast-interface")
+					continue
+				}
+				ip = ifaceIP
+			}
+			oc, errD := net.DialUDP("udp4", nil, &net.UDPAddr{IP: ip, Port: lport})
+			if errD != nil {
+				segs = append(segs, "dial-error")
+				continue
+			}
+			_, _ = oc.Write(buildReq(parseType("con"), 4242, []byte{0x0f}, "other"))
+			buf := make([]byte, 2048)
+			_ = oc.SetReadDeadline(time.Now().Add(3 * time.Second))
+			_, errR := oc.Read(buf)
+			_ = oc.Close()
+			if errR != nil {
+				segs = append(segs, "no-reply")
+				continue
+			}
 		case "newconn":
 			var errN error
 			for try := 0; try < 200; try++ { // Serve may not have registered its listener yet
@@ -114,6 +192,34 @@ func runUDPServerScenario(line string) string {
 		segs = append(segs, sc.observe())
 	}
 	return strings.Join(segs, " | ")
+}
+
+// udpGetMIDOpt sets Config.GetMID of a udp server (there is no option constructor for it).
+type udpGetMIDOpt struct{ f func() int32 }
+
+func (o udpGetMIDOpt) UDPServerApply(cfg *udpserver.Config) { cfg.GetMID = o.f }
+
+// multicastInterface: the first multicast capable interface that is up, not the loopback, and has an IPv4 address.
+func multicastInterface() (net.Interface, net.IP, bool) {
+	ifs, err := net.Interfaces()
+	if err != nil {
+		return net.Interface{}, nil, false
+	}
+	for _, i := range ifs {
+		if i.Flags&net.FlagMulticast == 0 || i.Flags&net.FlagUp == 0 || i.Flags&net.FlagLoopback != 0 {
+			continue
+		}
+		addrs, err := i.Addrs()
+		if err != nil {
+			continue
+		}
+		for _, a := range addrs {
+			if n, ok := a.(*net.IPNet); ok && n.IP.To4() != nil {
+				return i, n.IP.To4(), true
+			}
+		}
+	}
+	return net.Interface{}, nil, false
 }
 
 func TestC05UDPServer(t *testing.T) {
